@@ -238,6 +238,39 @@ class HtmlSpec(TaintSpec):
     def __init__(self):
         self.visited: dict[int, tuple] = {}
         self.internal: dict[int, list[str]] = {}  # id(private helper) -> qualnames of its (only) callers
+        self.sanitiser_calls: set[int] = set()  # id(call) of every call recognised as html.escape (under whatever name)
+
+    def sanitiser(self, call, dotted, frame):
+        """html.escape under any name: the canonical dotted callee, or a name bound exactly once (module constant of this or an imported
+        repository module, single-assignment local) to it: ``_escape = html.escape``."""
+        why = self._sanitiser(call, dotted, frame)
+        if why:
+            self.sanitiser_calls.add(id(call))
+        return why
+
+    def _sanitiser(self, call, dotted, frame):
+        why = self.sanitisers.get(dotted)
+        if why:
+            return why
+        f = call.func
+        for _ in range(4):
+            v = None
+            mod = frame.mod
+            if isinstance(f, ast.Name) and f.id in frame.locals:
+                vals, plain = _bindings(frame.fn, f.id)
+                if plain and len(vals) == 1:
+                    v = vals[0]
+            elif isinstance(f, ast.Name) and f.id not in frame.env:
+                vals = mod.assigns(f.id)
+                if len(vals) == 1 and f.id not in _module_rebound(mod) and mod.get(f.id) is None:
+                    v = vals[0]
+            if v is None or not isinstance(v, (ast.Name, ast.Attribute)):
+                return None
+            d = frame.prog.dotted(mod, v, frame if isinstance(f, ast.Name) and f.id in frame.locals else None)
+            if d in self.sanitisers:
+                return self.sanitisers[d]
+            f = v
+        return None
 
     def is_entry(self, fn, an) -> bool:
         # every parameter of a function that builds HTML may carry peer-controlled text - except for a private helper whose every use is a
@@ -376,6 +409,57 @@ def run_html(model, mods, what):
 # value resolution: where does the value of an expression come from (locals, module constants, helpers)
 
 
+_MOD_BOUND_CACHE: dict = {}
+
+
+def _module_bound(mod) -> set:
+    """Names bound at the top level of ``mod`` by anything but an import (def / class / assignment / loop / with ...)."""
+    key = id(mod)
+    if key in _MOD_BOUND_CACHE and _MOD_BOUND_CACHE[key][0] is mod:
+        return _MOD_BOUND_CACHE[key][1]
+    out = set()
+    for n in ast.walk(mod.tree):
+        if enclosing_func(n) is not None:
+            continue
+        if isinstance(n, ast.Name) and isinstance(n.ctx, (ast.Store, ast.Del)):
+            out.add(n.id)
+        elif isinstance(n, (ast.FunctionDef, ast.AsyncFunctionDef, ast.ClassDef)) and isinstance(getattr(n, "_parent", None), ast.Module):
+            out.add(n.name)
+    _MOD_BOUND_CACHE[key] = (mod, out)
+    return out
+
+
+_MOD_REBOUND_CACHE: dict = {}
+
+
+def _module_rebound(mod) -> set:
+    """Module-level names of ``mod`` that are not plain constants: bound more than once at the top level (or by a loop / with / augmented
+    assignment / del there), or re-bound from inside a function through ``global``."""
+    key = id(mod)
+    if key in _MOD_REBOUND_CACHE and _MOD_REBOUND_CACHE[key][0] is mod:
+        return _MOD_REBOUND_CACHE[key][1]
+    cnt: dict = {}
+    out = set()
+    for n in ast.walk(mod.tree):
+        if isinstance(n, ast.Global):
+            out |= set(n.names)
+        if enclosing_func(n) is not None:
+            continue
+        if isinstance(n, ast.Name) and isinstance(n.ctx, (ast.Store, ast.Del)):
+            p = getattr(n, "_parent", None)
+            plain = (isinstance(p, ast.Assign) and any(t is n for t in p.targets)) or (isinstance(p, ast.AnnAssign) and p.target is n)
+            if not plain:
+                out.add(n.id)
+            cnt[n.id] = cnt.get(n.id, 0) + 1
+    out |= {k for k, v in cnt.items() if v > 1}
+    _MOD_REBOUND_CACHE[key] = (mod, out)
+    return out
+
+
+def _text_node(n):
+    return n.value if isinstance(n, ast.Constant) and isinstance(n.value, (str, bytes)) else None
+
+
 class RC:
     """Where an expression lives: module, enclosing function (None = module level) and, when we came in through a call, the argument
     expressions bound to the function's parameters."""
@@ -492,6 +576,28 @@ class Resolver:
             vals = rc.mod.assigns(e.id)
             if vals:
                 return [x for v in vals for x in self.resolve(v, RC(rc.mod, None), seen, trail)]
+            if e.id not in _module_bound(rc.mod):
+                imp = self.imported_constant(rc.mod, e)
+                if imp is not None:
+                    return [x for v in imp[1] for x in self.resolve(v, RC(imp[0], None), seen, trail)]
+            return [(e, rc)]
+        if isinstance(e, ast.Attribute) and isinstance(e.ctx, ast.Load) and isinstance(e.value, ast.Name) and e.value.id in ("self", "cls") and rc.fn is not None \
+                and isinstance(getattr(rc.fn, "_parent", None), ast.ClassDef) and len(_seen) <= 12 and not _bindings(rc.fn, e.value.id)[0]:
+            # `self.ERROR_PAGE_HEADERS`: a class-level constant (found along the MRO, never stored through an instance / the class anywhere)
+            c = self.class_constant(rc.mod, rc.fn._parent, e.attr)
+            key = ("clsattr", id(rc.fn._parent), e.attr)
+            if c is not None and key not in _seen:
+                return self.resolve(c[1], RC(c[0], None), _seen + (key,), trail)
+            return [(e, rc)]
+        if isinstance(e, ast.Attribute) and isinstance(e.ctx, ast.Load) and attr_chain(e) and len(_seen) <= 12:
+            # `_base.ERROR_PAGE_CONTENT_TYPE`: a constant of another repository module reached through an imported module name
+            head = attr_chain(e).split(".")[0]
+            local = rc.fn is not None and (lambda b: bool(b[0]) or not b[1])(_bindings(rc.fn, head))
+            if not local and head in rc.mod.imports and not rc.mod.assigns(head):
+                imp = self.imported_constant(rc.mod, e)
+                key = ("attr", imp[0].rel, attr_chain(e)) if imp is not None else None
+                if imp is not None and key not in _seen:
+                    return [x for v in imp[1] for x in self.resolve(v, RC(imp[0], None), _seen + (key,), trail)]
             return [(e, rc)]
         if isinstance(e, ast.IfExp):
             return self.resolve(e.body, rc, _seen, trail) + self.resolve(e.orelse, rc, _seen, trail)
@@ -506,17 +612,133 @@ class Resolver:
                     return [x for r in rets for x in self.resolve(r.value, rc2, _seen, trail)]
         return [(e, rc)]
 
-    def texts(self, e, rc: RC):
-        """The set of constant texts ``e`` may denote (str / bytes, ``"..".encode()`` included); None when an alternative is not a constant."""
+    def class_constant(self, mod, cls, name):
+        """(Module, value node) of the class-body assignment ``name = value`` that ``self.name`` denotes in a method of ``cls`` (first class of
+        the MRO that binds it, bound exactly once there, not a def / property); None when the attribute is also stored anywhere in the package
+        (``x.name = ..``, ``del``, augmented) or is not such a constant."""
+        try:
+            mro = self.model.mro(mod.rel, getattr(cls, "_qual", cls.name))
+        except AnalysisError:
+            return None
+        found = None
+        for m, c in mro:
+            vals = []
+            for st in c.body:
+                if isinstance(st, ast.Assign) and any(isinstance(t, ast.Name) and t.id == name for t in st.targets):
+                    vals.append(st.value)
+                elif isinstance(st, ast.AnnAssign) and isinstance(st.target, ast.Name) and st.target.id == name and st.value is not None:
+                    vals.append(st.value)
+                elif isinstance(st, (ast.FunctionDef, ast.AsyncFunctionDef, ast.ClassDef)) and st.name == name:
+                    return None
+            if vals:
+                if len(vals) != 1:
+                    return None
+                found = (m, vals[0])
+                break
+        if found is None:
+            return None
+        bound = 0
+        for m in self.model.all_modules():
+            if name not in m.source:
+                continue
+            for n in ast.walk(m.tree):
+                if isinstance(n, ast.Attribute) and n.attr == name and isinstance(n.ctx, (ast.Store, ast.Del)):
+                    return None
+                if isinstance(n, ast.Name) and n.id == name and isinstance(n.ctx, (ast.Store, ast.Del)) and isinstance(getattr(getattr(n, "_parent", None), "_parent", None), ast.ClassDef):
+                    bound += 1  # a second class body binding the name may be a subclass overriding it
+                    if bound > 1:
+                        return None
+                if isinstance(n, ast.Call) and isinstance(n.func, ast.Name) and n.func.id in ("setattr", "delattr") and len(n.args) >= 2 \
+                        and not (isinstance(n.args[1], ast.Constant) and n.args[1].value != name):
+                    return None
+        return found
+
+    def imported_constant(self, mod, e):
+        """(Module, [value node]) of the module-level constant of another repository module that the name / dotted name ``e`` used in
+        ``mod`` denotes through an import (``from ._base import X``, ``from . import _base`` + ``_base.X``, ``import a.b as m`` + ``m.X``,
+        aliases and re-exports included); None when it is not such a constant (or is assigned more than once / also defined as def/class)."""
+        chain = attr_chain(e) if not isinstance(e, ast.Name) else e.id
+        if not chain:
+            return None
+        parts = chain.split(".")
+        cur, seen = mod, set()
+        for _ in range(6):
+            if parts[0] not in cur.imports or (cur.rel, ".".join(parts)) in seen:
+                return None
+            seen.add((cur.rel, ".".join(parts)))
+            target = cur.imports[parts[0]].split(".") + parts[1:]
+            nxt = None
+            for i in range(len(target), 0, -1):
+                m2 = self.model.module_by_dotted(".".join(target[:i]))
+                if m2 is not None:
+                    nxt = (m2, target[i:])
+                    break
+            if nxt is None or len(nxt[1]) == 0:
+                return None
+            m2, rest = nxt
+            if len(rest) == 1:
+                if m2.get(rest[0]) is not None:
+                    return None
+                vals = m2.assigns(rest[0])
+                if vals:
+                    return (m2, vals) if rest[0] not in _module_rebound(m2) else None
+            if m2 is cur:
+                return None
+            cur, parts = m2, rest  # re-exported through that module's own imports
+        return None
+
+    def texts(self, e, rc: RC, _depth=0):
+        """The set of constant texts ``e`` may denote (str / bytes; ``X.encode()`` / ``X.decode()``, ``str(X)``, ``+`` chains, ``%`` / f-string /
+        ``.format`` free of interpolations and implicit concatenation of such values are folded); None when an alternative is not a constant."""
         out = set()
         for n, nrc in self.resolve(e, rc):
-            if isinstance(n, ast.Call) and isinstance(n.func, ast.Attribute) and n.func.attr in ("encode", "decode") and _text(n.func.value) is not None:
-                n = n.func.value
-            t = _text(n)
-            if t is None:
+            ts = self._texts1(n, nrc, _depth)
+            if ts is None:
                 return None
-            out.add(t)
+            out |= ts
         return out or None
+
+    def _texts1(self, n, rc, depth):
+        t = _text(n)
+        if t is not None:
+            return {t}
+        if depth > 6:
+            return None
+        if isinstance(n, ast.Call) and isinstance(n.func, ast.Attribute) and n.func.attr in ("encode", "decode"):
+            # the codec arguments do not matter for the ASCII header texts the rules compare; they must be constants all the same
+            if all(isinstance(a, ast.Constant) for a in n.args) and all(k.arg and isinstance(k.value, ast.Constant) for k in n.keywords):
+                return self.texts(n.func.value, rc, depth + 1)
+            return None
+        if isinstance(n, ast.Call) and isinstance(n.func, ast.Name) and n.func.id in ("str", "bytes") and n.args and not n.keywords:
+            if rc.fn is not None and (lambda b: bool(b[0]) or not b[1])(_bindings(rc.fn, n.func.id)):
+                return None
+            if n.func.id == "str" and len(n.args) == 1:
+                inner = self.resolve(n.args[0], rc)
+                if all(isinstance(_text_node(x), str) for x, _ in inner):
+                    return self.texts(n.args[0], rc, depth + 1)
+                return None
+            if n.func.id == "bytes" and len(n.args) in (2, 3) and all(isinstance(a, ast.Constant) for a in n.args[1:]):
+                return self.texts(n.args[0], rc, depth + 1)
+            return None
+        if isinstance(n, ast.BinOp) and isinstance(n.op, ast.Add):
+            a, b = self.texts(n.left, rc, depth + 1), self.texts(n.right, rc, depth + 1)
+            if a is None or b is None or len(a) * len(b) > 16:
+                return None
+            return {x + y for x in a for y in b}
+        if isinstance(n, ast.JoinedStr):
+            acc = {""}
+            for v in n.values:
+                if isinstance(v, ast.FormattedValue):
+                    if v.conversion != -1 or v.format_spec is not None:
+                        return None
+                    ts = self.texts(v.value, rc, depth + 1)
+                else:
+                    ts = self.texts(v, rc, depth + 1)
+                if ts is None or len(acc) * len(ts) > 16:
+                    return None
+                acc = {x + y for x in acc for y in ts}
+            return acc
+        return None
 
     def text(self, e, rc: RC):
         """The one constant text ``e`` denotes, else None."""
@@ -531,13 +753,30 @@ class Resolver:
         trail: list = []
         alts = self.resolve(e, rc, trail=trail)
         later = []  # headers = Headers(..); headers["connection"] = "close": writes through every local / parameter that held the object
+        added = []  # fields = [..]; fields.append((b"content-type", b"text/html")): further values for the names they carry
         for trc, name in trail:
-            later += [(k, v, trc) for k, v in header_writes(trc.fn, name, what)]
+            adds: list = []
+            later += [(k, v, trc) for k, v in header_writes(trc.fn, name, what, adds)]
+            added += [(kind, x, trc) for kind, x in adds]
         for n, nrc in alts:
             fields: dict = {}
             ok = self._display(n, nrc, fields, 0)
             if ok is None:
                 raise AnalysisError(f"{what}: the headers expression `{norm(n)[:80]}` is not a header display the rule can read")
+            for kind, x, xrc in added:
+                if kind == "pair":
+                    good = self._pair(x, xrc, fields)
+                    if not good:
+                        alts2 = self.resolve(x, xrc)
+                        good = len(alts2) == 1 and alts2[0][0] is not x and self._pair(alts2[0][0], alts2[0][1], fields)
+                elif kind == "display":
+                    good = self._sub_display(x, xrc, fields, 0)
+                else:
+                    t = self.text(x[0], xrc)
+                    good = t is not None
+                    if good:
+                        fields.setdefault(t.lower(), []).append((x[1], xrc))
+                ok = ok and bool(good)
             for k, v, krc in later:
                 t = self.text(k, krc)
                 if t is None:
@@ -563,8 +802,12 @@ class Resolver:
             kind = last_attr(n.func)
             complete = True
             for k in n.keywords:
-                if k.arg is None:
-                    complete = False
+                if k.arg is None:  # Headers(**fields) / dict(**COMMON): the keys become keyword names
+                    sub: dict = {}
+                    if not self._sub_display(k.value, rc, sub, depth):
+                        complete = False
+                    for name, vals in sub.items():
+                        fields.setdefault(name.replace("_", "-") if kind == "Headers" else name, []).extend(vals)
                 else:
                     name = k.arg.lower().replace("_", "-") if kind == "Headers" else k.arg.lower()
                     fields.setdefault(name, []).append((k.value, rc))
@@ -582,7 +825,11 @@ class Resolver:
         if isinstance(n, ast.Dict):
             complete = True
             for k, v in zip(n.keys, n.values):
-                t = self.text(k, rc) if k is not None else None
+                if k is None:  # {**COMMON, "content-type": ..}
+                    if not self._sub_display(v, rc, fields, depth):
+                        complete = False
+                    continue
+                t = self.text(k, rc)
                 if t is None:
                     complete = False
                 else:
@@ -591,14 +838,32 @@ class Resolver:
         if isinstance(n, (ast.List, ast.Tuple, ast.Set)):
             complete = True
             for e in n.elts:
-                if not self._pair(e, rc, fields):
+                if isinstance(e, ast.Starred):  # [(b":status", ..), *COMMON_FIELDS]
+                    if not self._sub_display(e.value, rc, fields, depth):
+                        complete = False
+                    continue
+                if self._pair(e, rc, fields):
+                    continue
+                alts = self.resolve(e, rc)  # a pair held in a local / constant: [STATUS_FIELD, CONTENT_TYPE_FIELD]
+                if not (len(alts) == 1 and alts[0][0] is not e and self._pair(alts[0][0], alts[0][1], fields)):
                     complete = False
             return complete
         if isinstance(n, ast.BinOp) and isinstance(n.op, (ast.Add, ast.BitOr)):
-            a = self._display(n.left, rc, fields, depth + 1)
-            b = self._display(n.right, rc, fields, depth + 1)
+            a = self._sub_display(n.left, rc, fields, depth, strict=True)
+            b = self._sub_display(n.right, rc, fields, depth, strict=True)
             return None if a is None and b is None else bool(a) and bool(b)
         return None
+
+    def _sub_display(self, e, rc, fields, depth, strict=False):
+        """Part of a display (operand of ``+`` / ``|``, ``*starred`` element), resolved by value first.  -> True / False (fields unknown);
+        with ``strict`` also None (the part is no display at all)."""
+        alts = self.resolve(e, rc)
+        if len(alts) != 1:
+            return False
+        r = self._display(alts[0][0], alts[0][1], fields, depth + 1)
+        if r is None:
+            return None if strict else False
+        return r
 
     def header_is(self, displays, name: str, pred) -> bool:
         """Every alternative carries header ``name`` and each value given for it satisfies ``pred`` (a predicate on its constant text)."""
@@ -624,11 +889,24 @@ class Resolver:
 _HEADER_MUTATORS = ("set_all", "add", "insert", "update", "setdefault", "pop", "clear", "popitem", "set_state", "extend", "append", "remove")
 
 
-def header_writes(fn, chain: str, what: str):
+def header_writes(fn, chain: str, what: str, additions=None):
     """[(key node, value node)] of the ``<chain>[key] = value`` statements of ``fn`` (chain = 'headers' / 'resp.headers'); any other
-    modification of that object (del, +=, mutating method) is outside the model -> AnalysisError."""
+    modification of that object (del, mutating method) is outside the model -> AnalysisError.  When the caller passes a list as
+    ``additions`` the statements that only *add* fields are collected there instead of being refused: ('pair', node) for
+    ``X.append((k, v))`` / ``X.insert(i, (k, v))``, ('display', node) for ``X.extend(D)`` / ``X += D`` / ``X.update(D)``, ('kv', (k, v)) for ``X.add(k, v)``."""
     out = []
     for n in walk_in_order(fn):
+        if additions is not None and isinstance(n, ast.Call) and isinstance(n.func, ast.Attribute) and attr_chain(n.func.value) == chain and not n.keywords \
+                and not any(isinstance(a, ast.Starred) for a in n.args):
+            m, k = n.func.attr, len(n.args)
+            add = ("pair", n.args[0]) if (m, k) == ("append", 1) else ("pair", n.args[1]) if (m, k) == ("insert", 2) else \
+                ("display", n.args[0]) if (m, k) in (("extend", 1), ("update", 1)) else ("kv", (n.args[0], n.args[1])) if (m, k) == ("add", 2) else None
+            if add is not None:
+                additions.append(add)
+                continue
+        if additions is not None and isinstance(n, ast.AugAssign) and isinstance(n.op, (ast.Add, ast.BitOr)) and attr_chain(n.target) == chain and "." not in chain:
+            additions.append(("display", n.value))
+            continue
         if isinstance(n, ast.Subscript) and attr_chain(n.value) == chain and isinstance(n.ctx, (ast.Store, ast.Del)):
             par = getattr(n, "_parent", None)
             if isinstance(n.ctx, ast.Store) and isinstance(par, ast.Assign) and len(par.targets) == 1:
@@ -1126,7 +1404,7 @@ def check(ctx):
 
     for mod, n, kind, interps in found:
         fn = enclosing_func(n)
-        roots = [n] + [c for c in ast.walk(fn) if isinstance(c, ast.Call) and prog.dotted(mod, c.func) in spec.sanitisers]
+        roots = [n] + [c for c in ast.walk(fn) if isinstance(c, ast.Call) and (prog.dotted(mod, c.func) in spec.sanitisers or id(c) in spec.sanitiser_calls)]
         bad = None
         for r in roots:
             for w in _wrappers(r, fn, set()):
